@@ -907,10 +907,15 @@ class PyExec:
     def call_name(self, st, name, n):
         if name in self.callees:
             return self.apply_callee(st, self.callees[name], self.args(st, n), n)
-        if name == "isinstance" and len(n.args) == 2 and (isinstance(n.args[1], ast.Name) or (
-                isinstance(n.args[1], ast.Tuple) and all(isinstance(x, ast.Name) for x in n.args[1].elts))):
+        def _cls_name(x):
+            return x.id if isinstance(x, ast.Name) else x.attr if isinstance(x, ast.Attribute) else None
+        if name == "isinstance" and len(n.args) == 2 and (_cls_name(n.args[1]) or (
+                isinstance(n.args[1], ast.Tuple) and all(_cls_name(x) for x in n.args[1].elts))):
             v = self.ev(st, n.args[0])
-            classes = [n.args[1].id] if isinstance(n.args[1], ast.Name) else [x.id for x in n.args[1].elts]
+            classes = [_cls_name(n.args[1])] if not isinstance(n.args[1], ast.Tuple) else [_cls_name(x) for x in n.args[1].elts]
+            if isinstance(v, PRef) and v.cls in self.opt.get("dynamic_classes", ()):
+                # an object whose static class in the contract is a base class: its dynamic class is an uninterpreted predicate
+                return PBool(z3.Or(*[z3.Function("isinstance_" + c, IntSort, z3.BoolSort())(v.addr) for c in classes]))
             if isinstance(v, (PAny, PInt)):
                 # the dynamic type of an abstract value: an uninterpreted predicate per class name
                 return PBool(z3.Or(*[z3.Function("isinstance_" + c, IntSort, z3.BoolSort())(v.t) for c in classes]))
